@@ -48,7 +48,20 @@ JudgeMerge1(e) ==
           \o Fails(e, "DRIFT_ReportedRulesExplained", e.rules = OneRules(tabs.merge, tabs.expand, e.b[1]))
         ELSE <<>>)
 
+\* a fragment with two attachment points completed on its own: every boundary is expanded or closed, the heavy
+\* atoms are those of the fragment plus the compounds named by the reported rules; which rules are reported is
+\* predicted boundary by boundary (model conformance)
+RECURSIVE RulesOfAll(_, _)
+RulesOfAll(bs, k) == IF k > Len(bs) THEN <<>> ELSE OneRules(tabs.merge, tabs.expand, bs[k]) \o RulesOfAll(bs, k + 1)
+BagOf(seq) == [x \in {seq[j] : j \in 1..Len(seq)} |-> Cardinality({j \in 1..Len(seq) : seq[j] = x})]
+JudgeMerge1m(e) ==
+    Common(e)
+    \o (IF e.raised = "" /\ e.parses
+        THEN Fails(e, "DRIFT_ReportedRulesExplained", BagOf(e.rules) = BagOf(RulesOfAll(e.b, 1)))
+        ELSE <<>>)
+
 Judge(e) == CASE e.ev = "rules" -> <<>>
+              [] e.ev = "merge1m" -> JudgeMerge1m(e)
               [] e.ev = "merge2" -> JudgeMerge2(e)
               [] e.ev = "merge1" -> JudgeMerge1(e)
               [] OTHER -> << <<e.id, "UnknownEvent">> >>
